@@ -25,7 +25,8 @@ RUNS = {"quick": 2500, "thorough": 400000}
 BUDGET_S = {"quick": 60, "thorough": 1500}
 RULE = ("one run = 2-3 endpoint threads (socket pairs on socket ids 0/1, or a 3-party broadcast channel), <=4 operations "
         "each after connecting (send / recv blocking with timeout / non-blocking, structured, silent, callback delivery, "
-        "drop = disconnect at a drawn point), executed under a seeded schedule with pre-emption at every source line of "
+        "drop = disconnect at a drawn point, re-connection, non-blocking broadcast polls, receives with a time-out short "
+        "enough to expire, an impatient first connect attempt -- held apart from or racing with the peer's arrival), executed under a seeded schedule with pre-emption at every source line of "
         "the hub and socket modules; non-trivial = at least two messages were in flight on one channel at some moment, or "
         "a disconnect / non-blocking receive raced with a send (overlapping invoke/return intervals); distinct = distinct "
         "schedule fingerprint + scenario digest")
